@@ -1,12 +1,12 @@
 """C09 SM9 pairing groups: MC_C09 (dlog algebra over registers, exact G1/G2 via Bn.tla, standard anchor for GT, strict decoders) + replay."""
 import os
-from .. import core, cfgs, fel
+from .. import core, cfgs, fel, gt
 
 S = core.tla_set
 
 
 def run(ctx):
-    ctx.kats(["KAT_Bn", "BigNatAgree"], seed_const=("GF2Agree", "BigNatAgree"))
+    ctx.kats(["KAT_Bn", "BigNatAgree"] + gt.KATS, seed_const=("GF2Agree", "BigNatAgree"))
     out = os.path.join(ctx.scratch, "c09.ndjson")
     quick = ctx.tier == "quick"
     base = [0, 1, 2, 3, 4, 5, 6]
@@ -35,9 +35,13 @@ def run(ctx):
     # the limb-level arithmetic of F_p and F_p^2 underneath (assembly or generic gfp*, gfP2) on limb-structured residues
     feljobs, felouts = fel.jobs(ctx, ["gfp", "gfp2"])
     jobs += feljobs
+    # exact GT: F_p^12 tower and R-ate pairing in TLA+ (algo/Fp12, algo/Pairing), register programs of MC_C09gt
+    gtjobs, gtouts = gt.jobs(ctx)
+    jobs += gtjobs
     ctx.tlc_many(jobs, parallel=6)
     core.cat_files(outs, out)
     fel.replay(ctx, felouts, cfgs.K_EC)
+    gt.replay(ctx, gtouts, cfgs.K_EC)
     ctx.replay_all(out, cfgs.K_EC)
     ctx.binding_guard(out, cfgs.K_EC[0])
     ctx.sample_traces(out)
@@ -48,7 +52,6 @@ def run(ctx):
             return ("dec", s[0]["grp"], s[0]["form"], tuple(s[0]["variant"]))
         return tuple((x["op"], x["grp"], x.get("k", "")[:4] + x.get("k", "")[-4:], x.get("src"), x.get("a"), x.get("b")) for x in s)
     ctx.count_distinct(out, key)
-    ctx.assumptions += ["GT values are not recomputed by the specification (no F_p^12 tower / Miller loop in TLA+): GT is decided relationally (dlog algebra, equality partition, generator^dlog through the library's own base exponentiation) and anchored by the standard's g = e(P1,[ks]P2) of GM/T 0044.5 A.2; a consistent error in every GT path that preserved all relations and that constant would escape",
-                        "G1 and G2 results are exact (affine big-integer arithmetic over F_p and F_p^2 in Bn.tla)",
+    ctx.assumptions += ["G1 and G2 results are exact (affine big-integer arithmetic over F_p and F_p^2 in Bn.tla)",
                         "decoder inputs: canonical, coordinate+p, coordinate=p, off-curve, infinity, short, trailing, all-ones for 8 (quick) / 32 (thorough) points; G2 compressed decoding and G2 subgroup membership are not modelled"]
-    return ctx.finish(rule="one case per TLC transition of MC_C09: programs of <=3-4 group operations over registers (base, mul, add, neg, double, pair) with scalar classes 0,1,2,n-1,n,n+1,2^256-1, window one-hots, random; bilinearity macro programs; decoder cases; each replayed under 5 field-arithmetic backends; plus one case per row of MC_Fel (gfp / gfp2 primitive, left operand, all right operands) on the limb-level primitives; distinct = distinct programs / decoder cases / rows")
+    return ctx.finish(rule="one case per TLC transition of MC_C09: programs of <=3-4 group operations over registers (base, mul, add, neg, double, pair) with scalar classes 0,1,2,n-1,n,n+1,2^256-1, window one-hots, random; bilinearity macro programs; decoder cases; GT register programs of MC_C09gt with the exact 384-byte values of the TLA+ F_p^12 tower and R-ate pairing (pinned to GM/T 0044.5 annex values); each replayed under 5 field-arithmetic backends; plus one case per row of MC_Fel (gfp / gfp2 primitive, left operand, all right operands) on the limb-level primitives; distinct = distinct programs / decoder cases / rows")
